@@ -23,7 +23,7 @@ NAMES = [b"X-Foo", b"x-foo", b"X_Foo", b"X-FOO", b"Content-Type", b"Content_Type
          b"Path-Info", b"Server-Port", b"Request-Method", b"Query-String", b"Wsgi.Input", b"Accept", b"Cookie", b"X-a.b~c!", b"Http-Host", b"Url-Scheme"]
 VALUES = [b"v", b"two words", b"a,b", b"caf\xe9", b"a\tb", b"", b"  padded  ", b"x" * 40, b"1", b"\xff\xfe"]
 TARGETS = [b"/", b"/a", b"/p", b"/p/", b"/p/x", b"/pq", b"/p/q/r", b"/a?x=1&y=2", b"/a?", b"/a#frag", b"/a%20b", b"/a%2Fb", b"/%41", b"/a%", b"/a%4", b"/a%zz",
-           b"/a%00b", b"/caf%C3%A9", b"/a;p=1", b"/a?q=%20", b"/p?x#y", b"//dbl", b"http://h.example/abs?q=1", b"*"]
+           b"/a%00b", b"/caf%C3%A9", b"/a;p=1", b"/a?q=%20", b"/p?x#y", b"//dbl", b"http://h.example/abs?q=1", b"https://h.example/abs", b"ftp://h.example/x?y", b"HTTPS://H.example/", b"*"]
 
 
 def requests(thorough, rng):
@@ -54,6 +54,10 @@ def requests(thorough, rng):
         parts = [body[i:i + 7] for i in range(0, n, 7)]
         out.append(fg.msg(method=b"POST", headers=[H, (b"Transfer-Encoding", b"chunked"), (b"X-After", b"1")], raw_body=fg.chunked(parts, trailers=[(b"X-T", b"1")])))
         out.append(fg.msg(method=b"PUT", headers=[H, (b"Transfer-Encoding", b"Chunked"), (b"Content-Type", b"text/x")], raw_body=fg.chunked(parts, ext=b";e=1")))
+    # Content-Length next to Transfer-Encoding: chunked (RFC 9112 lets it be processed): the environ carries the decoded length
+    for clv, parts in ((b"3", [b"hello ", b"world"]), (b"4000", [b"abc"]), (b"10", []), (b"0", [b"xy"])):
+        out.append(fg.msg(method=b"POST", headers=[H, (b"Content-Length", clv), (b"Transfer-Encoding", b"chunked")], raw_body=fg.chunked(parts)))
+        out.append(fg.msg(method=b"POST", headers=[H, (b"Transfer-Encoding", b"chunked"), (b"Content-Length", clv)], raw_body=fg.chunked(parts)))
     # pipelined: each request only carries its own fields
     out.append(fg.msg(headers=[H, (b"X-One", b"1")]) + fg.msg(headers=[H, (b"X-Two", b"2")]) + fg.msg(method=b"POST", headers=[H, (b"Content-Length", b"2")], body=b"zz"))
     return out
